@@ -92,7 +92,7 @@ func mayImpersonate(w *world, clusterTok string, k authed, identity string) bool
 	node := ""
 	found := false
 	for _, p := range pods {
-		if p.failed {
+		if p.failed() {
 			continue
 		}
 		if p.name == k.kube.PodName && p.ns == k.kube.PodNamespace {
@@ -106,7 +106,7 @@ func mayImpersonate(w *world, clusterTok string, k authed, identity string) bool
 		return false
 	}
 	for _, p := range pods {
-		if !p.failed && p.ns == ns && p.sa == sa && p.node == node {
+		if !p.failed() && p.ns == ns && p.sa == sa && p.node == node {
 			return true
 		}
 	}
